@@ -105,6 +105,12 @@ func parseBrk(s string) (f func(o, n []item) bool, ok bool) {
 		return func(o, n []item) bool { return len(n) < len(o) }, true
 	case s == "le":
 		return func(o, n []item) bool { return len(n) <= len(o) }, true
+	case s == "gt": // prefer MORE items at a value tie
+		return func(o, n []item) bool { return len(n) > len(o) }, true
+	case s == "ge":
+		return func(o, n []item) bool { return len(n) >= len(o) }, true
+	case s == "xel": // prefer the lexicographically LARGER id list
+		return func(o, n []item) bool { return lexLt(idsOf(o), idsOf(n)) }, true
 	case s == "lex":
 		return func(o, n []item) bool { return lexLt(idsOf(n), idsOf(o)) }, true
 	case strings.HasPrefix(s, "h"):
@@ -146,23 +152,119 @@ func showSel(l []item) string {
 	return showIDs(l)
 }
 
-func runKnap(items []item, W int, brk func(o, n []item) bool) []item {
+// itemWindow passes the items as a window of a larger arena: canary items in front, behind and
+// in the spare capacity of the window; ok() tells whether the window and the canaries are
+// untouched after the call.
+func itemWindow(items []item) (in []item, ok func() bool) {
+	const pad = 3
+	canary := item{id: -7, w: -7, v: -7}
+	arena := make([]item, pad+len(items)+pad)
+	for i := range arena {
+		arena[i] = canary
+	}
+	copy(arena[pad:], items)
+	in = arena[pad : pad+len(items)] // cap reaches into the trailing canaries
+	return in, func() bool {
+		for i := 0; i < pad; i++ {
+			if arena[i] != canary || arena[len(arena)-1-i] != canary {
+				return false
+			}
+		}
+		for i, x := range items {
+			if arena[pad+i] != x {
+				return false
+			}
+		}
+		return true
+	}
+}
+
+// inputTouched is set (never cleared) when a call modified its input window or a canary.
+type inputFlag struct{ touched bool }
+
+func runKnap(items []item, W int, brk func(o, n []item) bool, fl *inputFlag) []item {
 	wf := func(x item) int { return x.w }
 	vf := func(x item) int { return x.v }
-	in := append([]item(nil), items...)
+	in, ok := itemWindow(items)
+	defer func() {
+		if !ok() {
+			fl.touched = true
+		}
+	}()
 	if brk == nil {
 		return algz.Knapsack(W, in, wf, vf)
 	}
 	return algz.Knapsack(W, in, wf, vf, brk)
 }
 
-func runSolv(items []item, max int, over bool, brk func(o, n []item) bool) algz.DpSolvers[item] {
+func runSolv(items []item, max int, over bool, brk func(o, n []item) bool, fl *inputFlag) algz.DpSolvers[item] {
 	vf := func(x item) int { return x.v }
-	in := append([]item(nil), items...)
+	in, ok := itemWindow(items)
+	defer func() {
+		if !ok() {
+			fl.touched = true
+		}
+	}()
 	if brk == nil {
 		return algz.FindDpSolvers(max, in, vf, over)
 	}
 	return algz.FindDpSolvers(max, in, vf, over, brk)
+}
+
+// ledger: every slice the library returned in this case (Knapsack selection, every selection
+// of a DpSolvers map, Best/BestAllowMinOverflow results, every clique) with a deep copy; after
+// every later call all of them must be unchanged (no pooled or shared backing memory).
+type ledger struct {
+	line  int
+	items []ledgerItems
+	ints  []ledgerInts
+}
+
+type ledgerItems struct {
+	line int
+	got  []item
+	copy []item
+}
+
+type ledgerInts struct {
+	line int
+	got  []int
+	copy []int
+}
+
+func (l *ledger) keepItems(x []item) {
+	l.items = append(l.items, ledgerItems{l.line, x, append([]item(nil), x...)})
+}
+
+func (l *ledger) keepInts(x []int) {
+	l.ints = append(l.ints, ledgerInts{l.line, x, append([]int(nil), x...)})
+}
+
+func (l *ledger) keepMap(m algz.DpSolvers[item]) {
+	for _, sel := range m {
+		l.keepItems(sel)
+	}
+}
+
+func (l *ledger) verify() string {
+	for _, e := range l.items {
+		if len(e.got) != len(e.copy) {
+			return fmt.Sprintf("selection-returned-by-line-%d-changed", e.line)
+		}
+		for i := range e.got {
+			if e.got[i] != e.copy[i] {
+				return fmt.Sprintf("selection-returned-by-line-%d-changed", e.line)
+			}
+		}
+	}
+	for _, e := range l.ints {
+		for i := range e.got {
+			if e.got[i] != e.copy[i] {
+				return fmt.Sprintf("slice-returned-by-line-%d-changed", e.line)
+			}
+		}
+	}
+	return ""
 }
 
 // solvLine prints the order-independent observables of a solver map.
@@ -198,8 +300,10 @@ func solvLine(m algz.DpSolvers[item], max int) string {
 
 type graphCase struct {
 	n      int
-	mode   int  // how the graph was built through the public API (see parseGraph)
-	lenBad bool // Graph.Len() differed from the number of vertices after building
+	mode   int             // how the graph was built through the public API (see parseGraph)
+	lenBad bool            // Graph.Len() differed from the number of vertices after building
+	dir    map[[2]int]bool // final arc set
+	asym   bool            // some arc has no reverse arc: not an undirected graph
 	und    [][2]int
 	arcs   [][2]int
 	graph  *algz.Graph[int]
@@ -298,6 +402,23 @@ func parseGraph(ts []string) (*graphCase, bool) {
 	if gc.graph.Len() != n {
 		gc.lenBad = true
 	}
+	// The property is about undirected graphs: a case is judged iff the FINAL arc set (all
+	// `a-b` and `a>b` tokens together, in whatever order and mixture they were added) is
+	// symmetric; one-way arcs left over make it a malformed case (correspondence only).
+	dir := map[[2]int]bool{}
+	for _, e := range gc.und {
+		dir[[2]int{e[0], e[1]}] = true
+		dir[[2]int{e[1], e[0]}] = true
+	}
+	for _, e := range gc.arcs {
+		dir[e] = true
+	}
+	for e := range dir {
+		if !dir[[2]int{e[1], e[0]}] {
+			gc.asym = true
+		}
+	}
+	gc.dir = dir
 	return gc, true
 }
 
@@ -352,6 +473,8 @@ func impl(c core.Case) []string {
 	var items []item
 	var keys []int
 	var gc *graphCase
+	lg := &ledger{}
+	fl := &inputFlag{}
 	return core.RunOps(c,
 		func(hdr []string) string {
 			if len(hdr) == 0 {
@@ -389,88 +512,117 @@ func impl(c core.Case) []string {
 			return "ok"
 		},
 		func(t []string) string {
-			if len(t) == 0 {
-				return "bad-op"
+			lg.line++
+			o := implStep(kind, items, keys, gc, lg, fl, t)
+			// results ledger: everything returned by EARLIER calls of this case is unchanged;
+			// input windows: no call wrote into its input or into the memory around it
+			if msg := lg.verify(); msg != "" {
+				o += " LEDGER:" + msg
+			} else if fl.touched {
+				o += " LEDGER:input-items-or-memory-around-them-modified"
 			}
-			switch {
-			case kind == "dp" && t[0] == "knap" && len(t) == 3:
-				W, err := strconv.Atoi(t[1])
-				brk, ok := parseBrk(t[2])
-				if err != nil || !ok {
-					return "bad-op"
-				}
-				return showIDs(runKnap(items, W, brk))
-			case kind == "dp" && t[0] == "solv" && len(t) == 5:
-				max, e1 := strconv.Atoi(t[1])
-				over, e2 := strconv.Atoi(t[2])
-				brk, ok := parseBrk(t[3])
-				seed, e3 := strconv.Atoi(t[4])
-				if e1 != nil || e2 != nil || e3 != nil || !ok || over < 0 || over > 1 || seed < 0 {
-					return "bad-op"
-				}
-				return solvLine(runSolv(items, max, over == 1, brk), max)
-			case kind == "map" && (t[0] == "best" || t[0] == "besto") && len(t) == 3:
-				m, e1 := strconv.Atoi(t[1])
-				seed, e2 := strconv.Atoi(t[2])
-				if e1 != nil || e2 != nil || seed < 0 {
-					return "bad-op"
-				}
-				var s algz.DpSolvers[int] // no keys and an odd seed: the nil map
-				if len(keys) > 0 || seed%2 == 0 {
-					s = algz.DpSolvers[int]{}
-				}
-				for _, k := range keys {
-					s[k] = []int{k}
-				}
-				var r []int
-				if t[0] == "best" {
-					r = s.Best(m)
-				} else {
-					r = s.BestAllowMinOverflow(m)
-				}
-				if r == nil {
-					return "nil"
-				}
-				return fmt.Sprint(r)
-			case kind == "graph" && t[0] == "cliques" && len(t) == 1:
-				return showCliques(canonCliques(gc.graph.GetMaximalCliques()))
-			case kind == "graph" && t[0] == "bk":
-				ps, ok := atoiAll(t[1:], gc.n)
-				if !ok {
-					return "bad-op"
-				}
-				// exactly what GetMaximalCliques does, with the order of P chosen
-				cliques := make([][]int, 0, 2)
-				R := make([]int, 0, gc.n)
-				P := make([]int, 0, gc.n)
-				P = append(P, ps...)
-				gc.graph.BronKerbosch(R, P, P[:0], &cliques)
-				return showCliques(cliques) + " arr=" + fmt.Sprint(P)
-			case kind == "graph" && t[0] == "bkx":
-				g := splitBar(t[1:])
-				if len(g) != 3 {
-					return "bad-op"
-				}
-				R, ok1 := atoiAll(g[0], gc.n)
-				P, ok2 := atoiAll(g[1], gc.n)
-				X, ok3 := atoiAll(g[2], gc.n)
-				if !ok1 || !ok2 || !ok3 {
-					return "bad-op"
-				}
-				// R with spare capacity (as in GetMaximalCliques), so that append(R, v) writes in
-				// place at every depth; P and X with spare capacity too (X = append(X, v) in place).
-				// The visible parts of the caller's R and P must be unchanged afterwards.
-				R = append(make([]int, 0, len(R)+gc.n+1), R...)
-				P = append(make([]int, 0, len(P)+2), P...)
-				X = append(make([]int, 0, len(X)+len(P)+1), X...)
-				r0, p0 := fmt.Sprint(R), fmt.Sprint(P)
-				cliques := make([][]int, 0, 2)
-				gc.graph.BronKerbosch(R, P, X, &cliques)
-				if fmt.Sprint(R) != r0 || fmt.Sprint(P) != p0 {
-					return showCliques(cliques) + " caller-slices-modified R=" + fmt.Sprint(R) + " P=" + fmt.Sprint(P)
-				}
-				return showCliques(cliques)
-			}
-			return "bad-op"
+			return o
 		})
+}
+
+// implStep runs one operation line.
+func implStep(kind string, items []item, keys []int, gc *graphCase, lg *ledger, fl *inputFlag, t []string) string {
+	if len(t) == 0 {
+		return "bad-op"
+	}
+	switch {
+	case kind == "dp" && t[0] == "knap" && len(t) == 3:
+		W, err := strconv.Atoi(t[1])
+		brk, ok := parseBrk(t[2])
+		if err != nil || !ok {
+			return "bad-op"
+		}
+		sel := runKnap(items, W, brk, fl)
+		lg.keepItems(sel)
+		return showIDs(sel)
+	case kind == "dp" && t[0] == "solv" && len(t) == 5:
+		max, e1 := strconv.Atoi(t[1])
+		over, e2 := strconv.Atoi(t[2])
+		brk, ok := parseBrk(t[3])
+		seed, e3 := strconv.Atoi(t[4])
+		if e1 != nil || e2 != nil || e3 != nil || !ok || over < 0 || over > 1 || seed < 0 {
+			return "bad-op"
+		}
+		m := runSolv(items, max, over == 1, brk, fl)
+		lg.keepMap(m)
+		return solvLine(m, max)
+	case kind == "map" && (t[0] == "best" || t[0] == "besto") && len(t) == 3:
+		m, e1 := strconv.Atoi(t[1])
+		seed, e2 := strconv.Atoi(t[2])
+		if e1 != nil || e2 != nil || seed < 0 {
+			return "bad-op"
+		}
+		var s algz.DpSolvers[int] // no keys and an odd seed: the nil map
+		if len(keys) > 0 || seed%2 == 0 {
+			s = algz.DpSolvers[int]{}
+		}
+		for _, k := range keys {
+			s[k] = []int{k}
+		}
+		var r []int
+		if t[0] == "best" {
+			r = s.Best(m)
+		} else {
+			r = s.BestAllowMinOverflow(m)
+		}
+		if r == nil {
+			return "nil"
+		}
+		lg.keepInts(r)
+		return fmt.Sprint(r)
+	case kind == "graph" && t[0] == "cliques" && len(t) == 1:
+		cs := gc.graph.GetMaximalCliques()
+		for _, c := range cs {
+			lg.keepInts(c)
+		}
+		return showCliques(canonCliques(cs))
+	case kind == "graph" && t[0] == "bk":
+		ps, ok := atoiAll(t[1:], gc.n)
+		if !ok {
+			return "bad-op"
+		}
+		// exactly what GetMaximalCliques does, with the order of P chosen
+		cliques := make([][]int, 0, 2)
+		R := make([]int, 0, gc.n)
+		P := make([]int, 0, gc.n)
+		P = append(P, ps...)
+		gc.graph.BronKerbosch(R, P, P[:0], &cliques)
+		for _, c := range cliques {
+			lg.keepInts(c)
+		}
+		return showCliques(cliques) + " arr=" + fmt.Sprint(P)
+	case kind == "graph" && t[0] == "bkx":
+		g := splitBar(t[1:])
+		if len(g) != 3 {
+			return "bad-op"
+		}
+		R, ok1 := atoiAll(g[0], gc.n)
+		P, ok2 := atoiAll(g[1], gc.n)
+		X, ok3 := atoiAll(g[2], gc.n)
+		if !ok1 || !ok2 || !ok3 {
+			return "bad-op"
+		}
+		// R with spare capacity (as in GetMaximalCliques), so that append(R, v) writes in
+		// place at every depth; P and X with spare capacity too (X = append(X, v) in place).
+		// The visible parts of the caller's R and P must be unchanged afterwards.
+		R = append(make([]int, 0, len(R)+gc.n+1), R...)
+		P = append(make([]int, 0, len(P)+2), P...)
+		X = append(make([]int, 0, len(X)+len(P)+1), X...)
+		r0, p0 := fmt.Sprint(R), fmt.Sprint(P)
+		cliques := make([][]int, 0, 2)
+		gc.graph.BronKerbosch(R, P, X, &cliques)
+		for _, c := range cliques {
+			lg.keepInts(c)
+		}
+		if fmt.Sprint(R) != r0 || fmt.Sprint(P) != p0 {
+			return showCliques(cliques) + " caller-slices-modified R=" + fmt.Sprint(R) + " P=" + fmt.Sprint(P)
+		}
+		return showCliques(cliques)
+	}
+	return "bad-op"
 }
